@@ -1,4 +1,5 @@
 import PeptVerif.Lemmas.Effects
+import PeptVerif.Model.EffectsApi
 import PeptVerif.Generated.Effects
 /-!
 # C08 — queries never change their arguments or depend on call history
@@ -152,13 +153,7 @@ def fnOK (f : Nat) (k : FnInfo → Bool) : Bool :=
   | some i => k i
   | none => false
 
-/-- API members deliberately outside the obligations (names as written in Python) -/
-def declaredOutside : List String :=
-  ["cross_linking_randomizer", "glycan_randomizer", "spectrum_randomizer", "top_down_randomizer", "random_intervals",
-   "count_invalid_entries", "get_isotopic_atomic_masses", "map_atomic_number_to_comp",
-   "map_atomic_number_to_comp_neutron_offset", "map_atomic_number_to_symbol", "map_atomic_symbol_to_average_mass",
-   "map_hill_order"]
-
+/-- the explicit list `Effects.declaredOutside` (Model/EffectsApi.lean), as code points -/
 def declaredOutsideCodes : List (List Nat) := declaredOutside.map (fun s => s.toList.map Char.toNat)
 
 def isOutside (e : Gen.ApiEntry) : Bool := declaredOutsideCodes.contains e.code
